@@ -1,7 +1,7 @@
 use std::collections::BTreeSet;
 use std::collections::HashMap;
 
-use crate::analyzer::qa::QualityAssurance;
+use crate::analyzer::qa::{get_all_qa, QualityAssurance};
 use crate::analyzer::utils::LineNumber;
 use crate::report::report_sections::qa::overview;
 
@@ -19,10 +19,18 @@ pub fn generate_qa_report(
 
     qa_report.push_str((overview_section + "\n").as_str());
 
-    for item in qa_items {
-        if item.1.len() > 0 {
-            let qa_target = item.0;
-            let matches = item.1;
+    let mut qa_items = qa_items;
+
+    //Render the patterns in declaration order and the files of each pattern in sorted order: the report then depends
+    //only on the findings, not on the iteration order of the HashMap or on the order in which files were discovered
+    for qa_target in get_all_qa() {
+        let mut matches = match qa_items.remove(&qa_target) {
+            Some(matches) => matches,
+            None => continue,
+        };
+        matches.sort();
+
+        if matches.len() > 0 {
 
             let report_section = get_qa_report_section(qa_target);
 
